@@ -8,7 +8,8 @@ import (
 )
 
 // VerifC02_Failover: three members, ReplicaCount 2, routing computed by the real routing-table code over a
-// consistent-hash ring (three layouts). A key receives an acknowledged Put and optionally an acknowledged second
+// consistent-hash ring (six layouts: partitions spread evenly, or skewed so
+// that the loss moves a partition between two survivors). A key receives an acknowledged Put and optionally an acknowledged second
 // operation (overwrite or Delete); then any one member stops (the primary owner, the backup owner or the bystander;
 // possibly the coordinator), the survivors learn it from their member lists and the coordinator recomputes and
 // pushes the routing table; optionally one more acknowledged operation is issued through a survivor. Every survivor
@@ -16,7 +17,12 @@ import (
 func VerifC02_Failover() {
 	const parts = 3
 	cl := vpNewCluster(vpClusterConfig{members: 3, replicaCount: 2, writeQuorum: 1, readQuorum: 1, partitions: parts})
-	cl.vpAttachRouting(vpChoose("ring", 3))
+	ring := vpChoose("ring", 6) // three even layouts, three skewed ones (survivor-to-survivor moves)
+	cl.vpAttachRouting(ring)
+	key := "k" // partition 1
+	if ring >= 3 {
+		key = "c" // partition 2: the one a skewed layout moves between survivors
+	}
 	cl.vpCoordinator().svc.rt.VerifUpdateRouting() // bootstrap: the coordinator computes and pushes the first table
 	ctx := context.Background()
 	reg := &vpReg{}
@@ -31,13 +37,13 @@ func VerifC02_Failover() {
 		}
 		dm := vpDMap(cl.members[members[vpChoose("entry", len(members))]], "d")
 		if op == 0 {
-			err := dm.Put(ctx, "k", []byte{tag}, nil)
+			err := dm.Put(ctx, key, []byte{tag}, nil)
 			vpAssert(err == nil, "put-acknowledged")
 			if err == nil {
 				*reg = vpReg{present: true, val: []byte{tag}}
 			}
 		} else {
-			_, err := dm.Delete(ctx, "k")
+			_, err := dm.Delete(ctx, key)
 			vpAssert(err == nil, "delete-acknowledged")
 			if err == nil {
 				*reg = vpReg{}
@@ -45,7 +51,7 @@ func VerifC02_Failover() {
 		}
 	}
 	all := []int{0, 1, 2}
-	vpAssume(vpDMap(cl.members[vpChoose("entry", 3)], "d").Put(ctx, "k", []byte{'1'}, nil) == nil)
+	vpAssume(vpDMap(cl.members[vpChoose("entry", 3)], "d").Put(ctx, key, []byte{'1'}, nil) == nil)
 	*reg = vpReg{present: true, val: []byte{'1'}}
 	do('2', true, all)
 	f := vpChoose("fails", 3)
@@ -58,7 +64,7 @@ func VerifC02_Failover() {
 	}
 	do('3', true, survivors)
 	for _, i := range survivors {
-		e, err := vpDMap(cl.members[i], "d").Get(ctx, "k")
+		e, err := vpDMap(cl.members[i], "d").Get(ctx, key)
 		if reg.present {
 			vpAssert(err == nil && vpBytesEq(e.Value(), reg.val), "acknowledged-write-survives-member-loss")
 		} else {
